@@ -1128,8 +1128,20 @@ func (r *replay) compare(st kit.Step, quiescent bool) error {
 			}
 		}
 		if !resolved {
-			// A slot completed earlier than the specification completes it is not compared: the
-			// property constrains the values, which are compared when the specification has them.
+			// A slot completed earlier than the specification completes it is not compared (the
+			// property constrains the values, which are compared when the specification has them),
+			// except for results no admitted item may ever receive.
+			if got, done := futureDone(b.fut); done {
+				for j, x := range got {
+					switch g := r.sut.classify(b.c, x); g.T {
+					case "ok", "fail", "busy":
+					case "canceled", "notReady", "backpressured":
+						return vio("C41", "result", "item %d (channel %d) was admitted and then answered %s %s", b.first+j, b.c, g.T, g.Err)
+					default:
+						return vio("C29", "result", "item %d (channel %d) was answered %s %s", b.first+j, b.c, g.T, g.Err)
+					}
+				}
+			}
 			continue
 		}
 		got, ok := waitFuture(b.fut, vStepWait)
